@@ -1,4 +1,5 @@
 import Momo.Proof.BTreeHistory
+import Momo.Proof.TrEqMisc
 /-!
 # C02 — B-tree set/map always equals the abstract sorted (multi)sequence
 
@@ -256,5 +257,17 @@ example : Bal 2 (inner [(5, 1)] [inner [] [leaf 1 [(3, 2)]], inner [(7, 3)] [lea
   · exact Bal.inner 0 _ _ rfl (by
       intro c hc; simp only [List.mem_cons, List.not_mem_nil, or_false] at hc
       rcases hc with rfl | rfl <;> exact Bal.leaf _ _)
+
+/-! ### The code itself, not only the hand-written model (T1b)
+
+`Momo.Tr.*` are Lean definitions regenerated on every check by tools/translate.py from the *function bodies* in the
+current headers (C++ integer semantics explicit: wrap-around of `size_t`, promotion and truncation of the byte fields,
+the `while` loop). The theorems below are about those generated definitions. -/
+/-- `TreeNode::GetSplitItemIndex` as translated from the current header is the split rule `splitIdx` of the model -/
+theorem C02_splitIdx_translated (itemCount newItemIndex : Nat) :
+    Tr.tree_GetSplitItemIndex itemCount newItemIndex = splitIdx itemCount newItemIndex :=
+  TrEq.tr_splitIdx itemCount newItemIndex
+
+example : Tr.tree_GetSplitItemIndex 8 2 = 3 ∧ Tr.tree_GetSplitItemIndex 8 5 = 4 := by decide
 
 end Momo.BTree
